@@ -226,7 +226,7 @@ class MessagePackRpc(MessagePackDocument):
 
 
         except ValueError as e:
-            raise MessagePackDecodeError(''.join(e.args))
+            raise MessagePackDecodeError(' '.join(str(a) for a in e.args))
 
         try:
             len(ctx.in_document)
